@@ -737,7 +737,7 @@ type gmBad struct {
 }
 
 var gmBadKinds = []gmBad{
-	{"default-missing", 0}, {"existing-empty", 0}, {"new-empty", 0},
+	{"default-missing", 0}, {"default-removed", 0}, {"existing-empty", 0}, {"new-empty", 0},
 	{"dial-fail", 1}, {"dial-fail", 2}, {"dial-fail", 3},
 	{"valid", 0},
 }
@@ -781,7 +781,7 @@ func (w *gmWalk) mutate16(b gmBad) *GCPMultiEndpointOptions {
 			o.MultiEndpoints[n] = gmMeo(perm(1 + w.rng.Intn(3))...)
 		}
 	}
-	if b.kind != "valid" && b.kind != "default-missing" && len(names) > 1 && w.rng.Intn(2) == 0 {
+	if b.kind != "valid" && b.kind != "default-missing" && b.kind != "default-removed" && len(names) > 1 && w.rng.Intn(2) == 0 {
 		// an invalid update that also names another (existing) default: after the
 		// rejection no-name / unknown-name RPCs must still use the old default
 		for _, n := range names {
@@ -794,6 +794,11 @@ func (w *gmWalk) mutate16(b gmBad) *GCPMultiEndpointOptions {
 	switch b.kind {
 	case "default-missing":
 		o.Default = "zzz"
+	case "default-removed":
+		// the default names a MultiEndpoint that exists now but has no options in this update
+		n := names[w.rng.Intn(len(names))]
+		o.Default = n
+		delete(o.MultiEndpoints, n)
 	case "existing-empty":
 		o.MultiEndpoints[names[w.rng.Intn(len(names))]] = gmMeo()
 	case "new-empty":
